@@ -172,3 +172,30 @@ def rn_rename(case, ctx):
         stages.append({"live": live, "reopened": reopened, "raw_rest": _raw_rest(path, group), "raw": project.raw_uri(uri),
                        "sibling": _raw_rest(path, sib, True) if case.get("sibling") else ""})
     return {"stages": stages, "raw_rest0": raw0, "sibling0": sib0}
+
+
+@driver("rn.many", timeout=600)
+def rn_many(case, ctx):
+    """Renaming in a collection with THOUSANDS of chromosomes (one bin each): the enum header of bins/chrom must fit HDF5's
+    object header, and cooler falls back to plain integer IDs when the new names make it too long."""
+    import cooler
+    n = case["n"]
+    names0 = [f"c{k}" for k in range(n)]
+    path = ctx.path()
+    import pandas as pd
+    bins = pd.DataFrame({"chrom": names0, "start": np.zeros(n, dtype=np.int64), "end": np.full(n, 10, dtype=np.int64)})
+    px = case["px"]
+    cooler.create_cooler(path, bins, gen.pixels_frame(px), ordered=True)
+    clr = cooler.Cooler(path)
+    m = {f"c{k}": f"c{k}" + case["suffix"] for k in range(0, n, case["every"])}
+    cooler.rename_chroms(clr, m)
+    out = {}
+    for tag, c in (("live", clr), ("reopened", cooler.Cooler(path))):
+        b = c.bins()[:]
+        labels = [str(x) for x in b["chrom"]]
+        names = [str(x) for x in c.chromnames]
+        lo, hi = c.extent(names[n - 2])
+        out[tag] = {"names": names, "labels_follow_names": labels == names, "nbins": int(len(b)),
+                    "extent_by_new_name": [int(lo), int(hi)],
+                    "pixels": project.pixel_rows(c.pixels()[:], ["bin1_id", "bin2_id", "count"])}
+    return out
